@@ -15,11 +15,12 @@ Definition glue_C04 (k : string) (a o : list value) : option verdict :=
         Some (functional [VZ (t64_sec x); VZ (t64_frac x)] o true)
     | _ => None end
   else if is k "ntp.from64" then
-    match a with
-    | [VZ s; VZ f; VZ rsec; VZ rnsec] =>
+    match a, o with
+    | [VZ s; VZ f; VZ rsec; VZ rnsec], [VZ bsec; VZ bnsec] =>
         let t := time_of_time64 {| t64_sec := s; t64_frac := f |} (mk_time rsec rnsec) in
-        Some (functional [VZ (time_sec t); VZ (time_nsec t)] o true)
-    | _ => None end
+        Some (functional [VZ (time_sec t); VZ (time_nsec t)] o
+                (C04_decode_ok s f (mk_time rsec rnsec) (mk_time bsec bnsec)))
+    | _, _ => None end
   else if is k "ntp.roundtrip" then
     match a, o with
     | [VZ sec; VZ nsec; VZ rsec; VZ rnsec], [VZ bsec; VZ bnsec] =>
